@@ -362,7 +362,8 @@ func (s *sim) planRef(e *endpoint) {
 	x := bip324ref.PubX(priv)
 	// encoding class: 0 random u; 1 small u sent as u+p; 2 u sent as 0 (=> u'=1);
 	// 3 u sent as p (=> 0 => u'=1)
-	class := simkit.Pick(c, "ref.uclass", 6, 2, 1, 1)
+	// 4 the encoding starts with 4..15 bytes of the v1 prefix (a v2 peer all the same)
+	class := simkit.Pick(c, "ref.uclass", 6, 2, 1, 1, 1)
 	var enc [64]byte
 	found := false
 	for try := 0; try < 64 && !found; try++ {
@@ -376,6 +377,17 @@ func (s *sim) planRef(e *endpoint) {
 			}
 		case 1:
 			u.SetInt(uint16(1 + c.Intn(60000, "ref.usmall") + try))
+		case 4:
+			copy(ub[:], c.Bytes(32, "ref.u"))
+			v1 := bip324ref.V1Prefix(e.magic)
+			k := 4 + c.Intn(12, "ref.v1-shared")
+			copy(ub[:k], v1[:k])
+			if ub[k] == v1[k] {
+				ub[k] ^= 0x55
+			}
+			if u.SetBytes(&ub) != 0 {
+				u.Normalize()
+			}
 		default:
 			u.SetInt(1)
 		}
@@ -427,6 +439,9 @@ func (s *sim) planRef(e *endpoint) {
 	s.r.Sig(fmt.Sprintf("ref.uclass=%d", class))
 	if class == 1 || class == 2 || class == 3 {
 		s.r.Probe("reference key encoding with u outside [1,p-1]")
+	}
+	if class == 4 {
+		s.r.Probe("reference key encoding shares 4..15 bytes with the v1 prefix")
 	}
 	// the first byte of an initiator's key must not look like a v1 magic byte
 	// sequence; with a random key that has probability 2^-128.
